@@ -101,11 +101,47 @@ aggregate_report contains violation if {
 }
 `
 
-var customSrc = map[string]string{"dup_rule.rego": ruleDup, "nothing_aggregated.rego": ruleMarker, "entry_count.rego": ruleCount}
+// SEVERAL entries per file (one per rule head); the report relates individual entries of different files (a name
+// defined in more than one file: one violation at every such definition) and exposes how many entries it was handed
+// and the sum of their rows (one violation without a file), so that dropping, merging or duplicating entries of one
+// file changes the result of the report phase.
+const ruleClash = `# METADATA
+# description: rule name defined in more than one file (one aggregate entry per rule)
+package custom.regal.rules.verif["name-clash"]
+
+import data.regal.ast
+import data.regal.result
+
+aggregate contains entry if {
+	some rule in input.rules
+	entry := result.aggregate(rego.metadata.chain(), {
+		"name": ast.ref_to_string(rule.head.ref),
+		"location": result.location(rule.head).location,
+	})
+}
+
+aggregate_report contains violation if {
+	some e1 in input.aggregate
+	some e2 in input.aggregate
+	e2.aggregate_source.file != e1.aggregate_source.file
+	e2.aggregate_data.name == e1.aggregate_data.name
+	violation := result.fail(rego.metadata.chain(), {"location": e1.aggregate_data.location})
+}
+
+aggregate_report contains violation if {
+	n := count(input.aggregate)
+	n > 0
+	total := sum([e.aggregate_data.location.row | some e in input.aggregate])
+	violation := result.fail(rego.metadata.chain(), {"location": {"file": "", "row": n, "col": total + 1, "text": ""}})
+}
+`
+
+var customSrc = map[string]string{"dup_rule.rego": ruleDup, "nothing_aggregated.rego": ruleMarker, "entry_count.rego": ruleCount,
+	"name_clash.rego": ruleClash}
 
 var builtinAgg = []string{"imports/unresolved-import", "imports/circular-import", "imports/prefer-package-imports",
 	"bugs/impossible-not", "custom/missing-metadata", "idiomatic/no-defined-entrypoint"}
-var customAgg = []string{"verif/dup-rule", "verif/nothing-aggregated", "verif/entry-count"}
+var customAgg = []string{"verif/dup-rule", "verif/nothing-aggregated", "verif/entry-count", "verif/name-clash"}
 
 func titles(keys []string) []string {
 	var ts []string
